@@ -8,6 +8,8 @@ pub mod c07;
 pub mod c09;
 pub mod c10;
 pub mod c11;
+pub mod c12;
+pub mod c13;
 pub mod common;
 
 use crate::runner::{Ctx, Tier, Verdict};
@@ -21,7 +23,7 @@ pub struct PropDef {
 }
 
 pub fn all() -> Vec<PropDef> {
-    vec![c01::def(), c02::def(), c03::def(), c04::def(), c05::def(), c06::def(), c07::def(), c09::def(), c10::def(), c11::def()]
+    vec![c01::def(), c02::def(), c03::def(), c04::def(), c05::def(), c06::def(), c07::def(), c09::def(), c10::def(), c11::def(), c12::def(), c13::def()]
 }
 
 pub fn find(id: &str) -> Option<PropDef> {
